@@ -1,6 +1,7 @@
 package checks
 
 import (
+	"bytes"
 	"context"
 	"crypto/x509"
 	"errors"
@@ -190,6 +191,7 @@ func c12Scenarios(tier mc.Tier) []mc.Scenario {
 		}
 	}
 	// a certificate whose distribution points are [ldap, http] and one with a single https point: the documented shapes still hold
+	out = append(out, mc.Scenario{Name: "C12-repeated-distribution-point", Bound: -1, Expect: 9, Body: c12RepeatedPoint, Params: map[string]string{"chain": "2", "points": "[u, u, v]", "checksPerEntry": "2"}})
 	out = append(out, mc.Scenario{Name: "C12-unusual-url-spellings", Bound: -1, Expect: 4 * 4 * 3 * 3, Body: c12Spellings, Params: map[string]string{"chain": "2", "spellings": "HTTP:// responder, responder path with a space, HtTp:// point, point with :80"}})
 	out = append(out, mc.Scenario{Name: "C12-non-http-distribution-points", Bound: 1, Body: c12NonHTTP, Params: map[string]string{"chain": "3", "shapes": "[ldap,http] and [https]"}})
 	for _, p := range []purposeKind{purposeCS, purposeTS} {
@@ -245,7 +247,9 @@ func newEntry(entry string, p purposeKind, tr *netsim.Transport) func(chain []*x
 		if e != nil {
 			panic(mc.HarnessError{Msg: e.Error()})
 		}
-		call = func(chain []*x509.Certificate) ([]*result.CertRevocationResult, error) { return v.Validate(chain, pki.Now) }
+		call = func(chain []*x509.Certificate) ([]*result.CertRevocationResult, error) {
+			return v.Validate(chain, pki.Now)
+		}
 	case "checkstatus":
 		call = func(chain []*x509.Certificate) ([]*result.CertRevocationResult, error) {
 			return revocsp.CheckStatus(revocsp.Options{CertChain: chain, CertChainPurpose: rpOf(p), HTTPClient: tr.Client()})
@@ -510,6 +514,101 @@ func c12Spellings(c *mc.Ctx) {
 		c.Outcome(fmt.Sprintf("spellings:%s", want.res))
 		if res[0].Result != want.res {
 			c.Fail("C12 "+entry+" verdict with unusual URL spellings", "got %s, decision table says %s (ocsp %v crl %v)", res[0].Result, want.res, oc, cc)
+		}
+	}
+}
+
+var (
+	c12RpOnce sync.Once
+	c12RpW    *revWorld
+)
+
+// certificateDamage compares a certificate object the library was given with a fresh parse of its own bytes (the URL lists a
+// revocation check reads, including what lies behind their length).
+func certificateDamage(x *x509.Certificate) string {
+	fresh, err := x509.ParseCertificate(x.Raw)
+	if err != nil {
+		return "raw bytes no longer parse: " + err.Error()
+	}
+	for _, l := range []struct {
+		n         string
+		got, want []string
+	}{{"OCSP responder", x.OCSPServer, fresh.OCSPServer}, {"CRL distribution point", x.CRLDistributionPoints, fresh.CRLDistributionPoints}, {"issuing certificate", x.IssuingCertificateURL, fresh.IssuingCertificateURL}} {
+		if len(l.got) != len(l.want) {
+			return fmt.Sprintf("%s list has %d entries, the certificate says %d", l.n, len(l.got), len(l.want))
+		}
+		for i := range l.want {
+			if l.got[i] != l.want[i] {
+				return fmt.Sprintf("%s %d reads %q, the certificate says %q", l.n, i, l.got[i], l.want[i])
+			}
+		}
+	}
+	if x.SerialNumber.Cmp(fresh.SerialNumber) != 0 || !bytes.Equal(x.RawSubject, fresh.RawSubject) || !bytes.Equal(x.RawIssuer, fresh.RawIssuer) || len(x.Extensions) != len(fresh.Extensions) {
+		return "certificate fields changed"
+	}
+	return ""
+}
+
+// c12RepeatedPoint: a certificate that lists the same distribution point twice in a row, then another one (legal; CAs do publish such
+// lists). The chain is checked twice through each entry point; the certificate objects belong to the caller and stay as they were.
+func c12RepeatedPoint(c *mc.Ctx) {
+	c12RpOnce.Do(func() {
+		c12RpW = newRevWorldURLs(2, []int{0}, []int{3}, purposeCS, func(kind string, ci, j int) (string, bool) {
+			if kind == "crl" && j == 1 {
+				return crlURL(ci, 0), true
+			}
+			return "", false
+		})
+	})
+	w := c12RpW
+	k0 := c.ChooseFree("crl[repeated point]", len(crlClassNames))
+	k2 := c.ChooseFree("crl[other point]", len(crlClassNames))
+	tr := &netsim.Transport{}
+	tr.Handler = func(r *netsim.Request, raw *http.Request) netsim.Answer {
+		src, ok := parseSource(r.URL)
+		if !ok || src.kind != "crl" {
+			return netsim.Answer{Status: 404}
+		}
+		k := k0
+		if src.idx == 2 {
+			k = k2
+		}
+		return w.serveCRL(src, crlByName(crlClassNames[k]))
+	}
+	want := result.ResultOK
+	for _, k := range []int{k0, k0, k2} {
+		if k == 1 {
+			want = result.ResultRevoked
+			break
+		}
+		if k == 2 {
+			want = result.ResultUnknown
+			break
+		}
+	}
+	chain := pki.X509s(w.certs)
+	c.Statef("repeated point: %s, other point: %s -> %s", crlClassNames[k0], crlClassNames[k2], want)
+	for _, entry := range []string{"validatecontext", "validate"} {
+		check := newEntry(entry, purposeCS, tr)
+		for round := 1; round <= 2; round++ {
+			res, err, pan := check(chain)
+			if pan != nil || err != nil || len(res) != 2 {
+				c.Fail("C12 valid chain not processed", "entry %s round %d: panic=%v err=%v", entry, round, pan, err)
+				return
+			}
+			c.Outcome(fmt.Sprintf("repeated-point:%s", res[0].Result))
+			if res[0].Result != want {
+				c.Fail(fmt.Sprintf("C12 %s verdict with a repeated distribution point (check %d of the same chain)", entry, round), "got %s, the points' answers say %s", res[0].Result, want)
+			}
+			for _, why := range shapeViolations(chain, res, "validate") {
+				c.Fail("C12 "+entry+" result-shape (repeated distribution point): "+stripDigits(why), "%s", why)
+			}
+			for i, x := range chain {
+				if why := certificateDamage(x); why != "" {
+					c.Fail("C12 "+entry+" the caller's certificate was modified by the check", "position %d after check %d: %s", i, round, why)
+					return
+				}
+			}
 		}
 	}
 }
